@@ -1,6 +1,13 @@
 import CJ.Drv.Loop
-/-! Driver for C01 (stub until the models are written). -/
+import CJ.Drv.Derive
+/-! Driver for C01: the whole derivation (keys, phantom, port, identifiers) on both sides, and the
+Lean SHA-256 / HMAC / HKDF on their own. -/
 open CJ.Drv
 
 def main : IO Unit := runDriver fun
+  | "derive" :: args => Derive.handle args
+  | "sha256" :: args => Derive.handleSha args
+  | "hmac" :: args => Derive.handleHmac args
+  | "hkdf" :: args => Derive.handleHkdf args
+  | "dtlshello" :: args => Derive.handleDtlsHello args
   | _ => none
